@@ -182,4 +182,230 @@ fn decode_hostile_datagram() {
     }
 }
 
+
+// ------------------------------------------------------------------------------------------------
+// U11-c  Packet::encode: exact datagram length for every packet kind (one harness per kind: a symbolic choice between
+// the kinds makes CBMC copy the 1.1 kB enum symbolically and run out of memory), every u64 sequence number,
+// payloads of every length 0..=1300 (loop-free: the AEAD is stubbed by its contract).
+// C13: every netcode datagram fits the 1400-byte carrier.  C19: challenge <= 333 bytes, denial <= 25 < 1078.
+static PAYLOAD_SRC: [u8; 1300] = [0u8; 1300];
+
+// (a macro, not a helper function: passing the buffer as `&mut [u8]` and the packet by reference made the
+// CBMC formula 50x larger than using the local array directly)
+macro_rules! check_sealed_encode {
+    ($packet:expr, $out:ident, $body:expr, $kind:expr) => {{
+        let seq: u64 = kani::any();
+        let key: [u8; 32] = kani::any();
+        let protocol_id: u64 = kani::any();
+        unsafe { ENC_CALLS = 0; }
+        let r = $packet.encode(&mut $out, protocol_id, Some((seq, &key)));
+        let n = sequence_bytes_required(seq);
+        let len = r.unwrap();   // serialization never fails when the datagram fits the buffer
+        assert!(len == 1 + n + $body + 16);
+        assert!(len <= 1400);
+        assert!(unsafe { ENC_CALLS } == 1);
+        // C17: sealed exactly once, with the given sequence as nonce, over body + tag
+        assert!(unsafe { ENC_LAST_SEQ } == seq);
+        assert!(unsafe { ENC_LAST_LEN } == $body + 16);
+        // (the prefix byte written at offset 0 is checked by the full round-trip harnesses: reading the buffer back
+        //  after symbolic-offset writes is what makes CBMC expensive, so it is not repeated for every kind)
+        len
+    }};
+}
+
+// @harness encode_len_keepalive unit=U11 props=C13,C16,C17 tier=quick kind=complete timeout=600 :: encode(KeepAlive), every u64 sequence and field value: Ok(1 + seq_bytes + 8 + 16), sealed once with (sequence, key)
+#[kani::proof]
+#[kani::unwind(10)]
+#[kani::stub(crate::crypto::encrypt_in_place, stub_encrypt)]
+fn encode_len_keepalive() {
+    let packet = Packet::KeepAlive { client_index: kani::any(), max_clients: kani::any() };
+    let mut out = [0u8; 64];
+    check_sealed_encode!(packet, out, 8, 4);
+}
+
+// @harness encode_len_disconnect_denied unit=U11 props=C13,C16,C17,C19 tier=quick kind=complete timeout=600 :: encode(Disconnect | ConnectionDenied): Ok(1 + seq_bytes + 16) <= 25 bytes
+#[kani::proof]
+#[kani::unwind(10)]
+#[kani::stub(crate::crypto::encrypt_in_place, stub_encrypt)]
+fn encode_len_disconnect_denied() {
+    let mut out = [0u8; 64];
+    if kani::any() {
+        let len = check_sealed_encode!(Packet::Disconnect, out, 0, 6);
+        assert!(len <= 25);
+    } else {
+        let len = check_sealed_encode!(Packet::ConnectionDenied, out, 0, 1);
+        assert!(len <= 25 && len < 1078);
+    }
+}
+
+// @harness encode_len_challenge unit=U11 props=C13,C16,C17,C19 tier=quick kind=complete timeout=600 :: encode(Challenge): Ok(1 + seq_bytes + 308 + 16) <= 333 < 1078 (smaller than any request)
+#[kani::proof]
+#[kani::unwind(10)]
+#[kani::stub(crate::crypto::encrypt_in_place, stub_encrypt)]
+fn encode_len_challenge() {
+    let token_data: [u8; NETCODE_CHALLENGE_TOKEN_BYTES] = kani::any();
+    let packet = Packet::Challenge { token_sequence: kani::any(), token_data };
+    let mut out = [0u8; 340];
+    let len = check_sealed_encode!(packet, out, 308, 2);
+    assert!(len <= 333 && len < 1078);
+}
+
+// @harness encode_len_response unit=U11 props=C13,C16,C17 tier=quick kind=complete timeout=600 :: encode(Response): Ok(1 + seq_bytes + 308 + 16)
+#[kani::proof]
+#[kani::unwind(10)]
+#[kani::stub(crate::crypto::encrypt_in_place, stub_encrypt)]
+fn encode_len_response() {
+    let token_data: [u8; NETCODE_CHALLENGE_TOKEN_BYTES] = kani::any();
+    let packet = Packet::Response { token_sequence: kani::any(), token_data };
+    let mut out = [0u8; 340];
+    check_sealed_encode!(packet, out, 308, 3);
+}
+
+// @harness encode_len_payload unit=U11 props=C13,C16,C17 tier=quick kind=complete timeout=900 :: encode(Payload(p)) for EVERY payload length 0..=1300 and every u64 sequence into the 1400-byte buffer: Ok(1 + seq_bytes + len + 16) <= 1325, never an error
+#[kani::proof]
+#[kani::unwind(10)]
+#[kani::stub(crate::crypto::encrypt_in_place, stub_encrypt)]
+fn encode_len_payload() {
+    let plen: usize = kani::any();
+    kani::assume(plen <= 1300);
+    let packet = Packet::Payload(&PAYLOAD_SRC[..plen]);
+    let mut out = [0u8; 1400];
+    let len = check_sealed_encode!(packet, out, plen, 5);
+    assert!(len <= 1325);
+}
+
+// @harness encode_len_request unit=U11 props=C13,C16,C19 tier=quick kind=complete timeout=900 :: encode(ConnectionRequest) = 1078 bytes exactly, not sealed, prefix byte 0
+#[kani::proof]
+#[kani::unwind(10)]
+#[kani::stub(crate::crypto::encrypt_in_place, stub_encrypt)]
+fn encode_len_request() {
+    let packet = Packet::ConnectionRequest { version_info: *NETCODE_VERSION_INFO, protocol_id: kani::any(), expire_timestamp: kani::any(), xnonce: [0; 24], data: [0; 1024] };
+    let mut out = [0u8; 1100];
+    unsafe { ENC_CALLS = 0; }
+    let r = packet.encode(&mut out, kani::any(), None);
+    assert!(r.unwrap() == 1078);
+    assert!(unsafe { ENC_CALLS } == 0 && out[0] == 0);
+}
+
+// ------------------------------------------------------------------------------------------------
+// U11-d  decode(encode(p)) == (sequence, p) with the AEAD as identity, per packet kind (complete for the fixed-size
+// kinds; payload bounded to 16 bytes = bounded stand-in for 0..=1300, never counted as proved).
+pub fn stub_decrypt_identity(buffer: &mut [u8], _sequence: u64, _private_key: &[u8; 32], _aad: &[u8]) -> Result<(), CryptoError> {
+    assert!(buffer.len() >= 16);
+    Ok(())
+}
+
+// @harness roundtrip_keepalive_disconnect_denied unit=U11 props=C16 tier=quick kind=complete timeout=600 :: decode(encode(p, s)) == (s, p) for KeepAlive (all field values) / Disconnect / ConnectionDenied, every u64 sequence
+#[kani::proof]
+#[kani::unwind(10)]
+#[kani::stub(crate::crypto::encrypt_in_place, stub_encrypt)]
+#[kani::stub(crate::crypto::dencrypted_in_place, stub_decrypt_identity)]
+fn roundtrip_keepalive_disconnect_denied() {
+    let seq: u64 = kani::any();
+    let key: [u8; 32] = kani::any();
+    let protocol_id: u64 = kani::any();
+    let client_index: u32 = kani::any();
+    let max_clients: u32 = kani::any();
+    let which: u8 = kani::any();
+    let mut out = [0u8; 64];
+    if which == 0 {
+        let len = Packet::KeepAlive { client_index, max_clients }.encode(&mut out, protocol_id, Some((seq, &key))).unwrap();
+        let (s2, back) = Packet::decode(&mut out[..len], protocol_id, Some(&key), None).unwrap();
+        assert!(s2 == seq);
+        assert!(matches!(back, Packet::KeepAlive { client_index: ci, max_clients: mc } if ci == client_index && mc == max_clients));
+    } else if which == 1 {
+        let len = Packet::Disconnect.encode(&mut out, protocol_id, Some((seq, &key))).unwrap();
+        let (s2, back) = Packet::decode(&mut out[..len], protocol_id, Some(&key), None).unwrap();
+        assert!(s2 == seq && matches!(back, Packet::Disconnect));
+    } else {
+        let len = Packet::ConnectionDenied.encode(&mut out, protocol_id, Some((seq, &key))).unwrap();
+        let (s2, back) = Packet::decode(&mut out[..len], protocol_id, Some(&key), None).unwrap();
+        assert!(s2 == seq && matches!(back, Packet::ConnectionDenied));
+    }
+}
+
+// Body-level round trips (Packet::write -> Packet::read at concrete offsets): complete for every field value.  Together
+// with prefix_sequence_roundtrip (prefix + sequence for all u64), decode_hostile_datagram (decode hands exactly
+// buffer[1+n .. len-16] to read, nonce = decoded sequence) and encode_len_* (encode seals exactly body + tag after 1+n
+// header bytes) they give decode(encode(p)) = p for these kinds; the composition step itself is an argument, not a check.
+// @harness body_roundtrip_challenge_response unit=U11 props=C16 tier=quick kind=complete timeout=600 :: Packet::read(kind, Packet::write(p)) == p for Challenge / Response with every token byte content and sequence
+#[kani::proof]
+#[kani::unwind(10)]
+fn body_roundtrip_challenge_response() {
+    let token_data: [u8; NETCODE_CHALLENGE_TOKEN_BYTES] = kani::any();
+    let token_sequence: u64 = kani::any();
+    let mut buf = [0u8; 308];
+    let i: usize = kani::any();
+    kani::assume(i < NETCODE_CHALLENGE_TOKEN_BYTES);
+    if kani::any() {
+        let mut w = std::io::Cursor::new(&mut buf[..]);
+        Packet::Challenge { token_sequence, token_data }.write(&mut w).unwrap();
+        assert!(w.position() == 308);
+        match Packet::read(PacketType::Challenge, &buf[..]).unwrap() {
+            Packet::Challenge { token_sequence: ts, token_data: td } => assert!(ts == token_sequence && td[i] == token_data[i]),
+            _ => assert!(false, "read another packet kind"),
+        }
+    } else {
+        let mut w = std::io::Cursor::new(&mut buf[..]);
+        Packet::Response { token_sequence, token_data }.write(&mut w).unwrap();
+        assert!(w.position() == 308);
+        match Packet::read(PacketType::Response, &buf[..]).unwrap() {
+            Packet::Response { token_sequence: ts, token_data: td } => assert!(ts == token_sequence && td[i] == token_data[i]),
+            _ => assert!(false, "read another packet kind"),
+        }
+    }
+}
+
+// @harness body_roundtrip_request unit=U11 props=C16 tier=quick kind=complete timeout=900 :: Packet::read(ConnectionRequest, Packet::write(p)) == p for every field value and every byte of the 1024-byte private token
+#[kani::proof]
+#[kani::unwind(10)]
+fn body_roundtrip_request() {
+    let data: [u8; 1024] = kani::any();
+    let xnonce: [u8; 24] = kani::any();
+    let version_info: [u8; 13] = kani::any();
+    let protocol_id: u64 = kani::any();
+    let expire_timestamp: u64 = kani::any();
+    let mut buf = [0u8; 1077];
+    let mut w = std::io::Cursor::new(&mut buf[..]);
+    Packet::ConnectionRequest { version_info, protocol_id, expire_timestamp, xnonce, data }.write(&mut w).unwrap();
+    assert!(w.position() == 1077);
+    let i: usize = kani::any();
+    kani::assume(i < 1024);
+    match Packet::read(PacketType::ConnectionRequest, &buf[..]).unwrap() {
+        Packet::ConnectionRequest { version_info: v, protocol_id: p, expire_timestamp: e, xnonce: x, data: d } => {
+            assert!(p == protocol_id && e == expire_timestamp);
+            assert!(d[i] == data[i] && x[i % 24] == xnonce[i % 24] && v[i % 13] == version_info[i % 13]);
+        }
+        _ => assert!(false, "read another packet kind"),
+    }
+}
+
+// @harness roundtrip_payload_bounded unit=U11 props=C16 tier=quick kind=bounded timeout=900 :: BOUND payload length 1..=16 bytes: decode(encode(Payload(p), s)) == (s, Payload(p)) for every u64 sequence and every byte content
+#[kani::proof]
+#[kani::unwind(20)]
+#[kani::stub(crate::crypto::encrypt_in_place, stub_encrypt)]
+#[kani::stub(crate::crypto::dencrypted_in_place, stub_decrypt_identity)]
+fn roundtrip_payload_bounded() {
+    let seq: u64 = kani::any();
+    let key: [u8; 32] = kani::any();
+    let protocol_id: u64 = kani::any();
+    let data: [u8; 16] = kani::any();
+    let plen: usize = kani::any();
+    kani::assume(plen >= 1 && plen <= 16);
+    let packet = Packet::Payload(&data[..plen]);
+    let mut out = [0u8; 64];
+    let len = packet.encode(&mut out, protocol_id, Some((seq, &key))).unwrap();
+    let (seq2, back) = Packet::decode(&mut out[..len], protocol_id, Some(&key), None).unwrap();
+    assert!(seq2 == seq);
+    match back {
+        Packet::Payload(p) => {
+            assert!(p.len() == plen);
+            let i: usize = kani::any();
+            kani::assume(i < plen);
+            assert!(p[i] == data[i]);
+        }
+        _ => assert!(false, "decoded another packet kind"),
+    }
+}
+
 } // mod verif_kani
